@@ -117,6 +117,22 @@ def loopIter (h : Hist) (latest : Nat) (recs : List Record) : Hist × Nat × Lis
     | some h' => (h', if r.ts > latest then acc.2 ++ [r] else acc.2)) (h, [])
   (h', recs.foldl (fun l r => if r.ts > l then r.ts else l) latest, sent)
 
+/-! ### When the loop starts a sync round -/
+
+/-- After each iteration `ticks` is incremented; a sync round is launched (and
+`ticks` reset) when it reaches 60, or - if the previous round failed (`status = 0`) -
+when `ticks % 4 = 3`. -/
+def shouldSync (ticks : Nat) (status : Nat) : Bool := decide (ticks ≥ 60) || (status == 0 && ticks % 4 == 3)
+
+/-- One iteration of the scheduling counter: returns the new counter and whether a round starts. -/
+def tickStep (ticks status : Nat) : Nat × Bool :=
+  if shouldSync (ticks + 1) status then (0, true) else (ticks + 1, false)
+
+/-- Run the counter over the sequence of sync statuses observed at each iteration. -/
+def tickRun : Nat → List Nat → List Bool
+  | _, [] => []
+  | ticks, st :: rest => let (t', b) := tickStep ticks st; b :: tickRun t' rest
+
 /-! ### Sync reply (server/sync_listener_tcp.go builds, client/reports.go parses) -/
 
 structure Parsed where
